@@ -147,14 +147,14 @@ def run_harnesses(wc, harnesses, outdir, jobs=8, extra_env=None, solver_cli=None
     env = dict(os.environ)
     env["CARGO_NET_OFFLINE"] = "true"
     env.update(extra_env or {})
-    target = os.path.join(wc, "target")
+    target = os.path.join(wc, "target-%s" % tag)
     seed = os.path.join(workcopy.CACHE, "kani-target-seed")
     if os.path.isdir(seed) and not os.path.exists(target):
         subprocess.run(["cp", "-al", seed, target], check=False)
     timeout = max(h.get("timeout", 600) for h in harnesses)
     cmd = ["cargo", "kani", "--lib", "--no-default-features",
            "-Z", "function-contracts", "-Z", "stubbing", "-Z", "unstable-options",
-           "--harness-timeout", "%ds" % timeout, "--output-format", "terse",
+           "--harness-timeout", "%ds" % timeout, "--output-format", "terse", "--target-dir", target,
            "-j", str(min(jobs, max(1, len(harnesses)))), "--exact"]
     if solver_cli:
         cmd += ["--solver", solver_cli]
@@ -202,4 +202,20 @@ def run_harnesses(wc, harnesses, outdir, jobs=8, extra_env=None, solver_cli=None
         else:
             r.update(status="undecided", reason="no verdict: " + ("CBMC timed out" if pr["timed_out"] else "solver crash / out of memory / unsupported construct"))
         results[h["path"]] = r
+    return results
+
+
+def run_grouped(wc, harnesses, outdir, jobs=8):
+    """Harnesses whose stubs conflict with another harness' contract live in different `group`s;
+    each group is one cargo-kani invocation with its own target dir; groups run concurrently."""
+    from concurrent.futures import ThreadPoolExecutor
+    groups = {}
+    for h in harnesses:
+        groups.setdefault(h.get("group") or "main", []).append(h)
+    results = {}
+    per = max(1, jobs // max(1, len(groups)))
+    with ThreadPoolExecutor(max_workers=len(groups)) as ex:
+        futs = {g: ex.submit(run_harnesses, wc, hs, outdir, per, None, None, None, g) for g, hs in groups.items()}
+        for g, f in futs.items():
+            results.update(f.result())
     return results
